@@ -432,6 +432,21 @@ func (e *c01env) stream(r *vh.RNG, n int) {
 		}
 		specs = append(specs, s)
 		img = append(img, ref.Serialize(s)...)
+		if r.Chance(1, 4) {
+			// stray bytes in front of the next frame (line noise; none of them can start a frame): each costs at most one refusal
+			readImg = append(readImg, img[len(readImg)-noise:]...)
+			k := 1 + r.Intn(6)
+			for j := 0; j < k; j++ {
+				b := r.Byte()
+				for b == 0xFE || b == 0xFD {
+					b = r.Byte()
+				}
+				readImg = append(readImg, b)
+			}
+			noise += k
+			rejects += k
+			e.rep.Count("stream_stray_bytes_between_valid_frames", k)
+		}
 		if e.drw != nil && len(e.known) > 0 && r.Chance(1, 3) {
 			// what the reader sees between two valid frames: a complete frame of a dialect message whose checksum is wrong (read to
 			// its end, then refused), of either version, signed or not whatever the stream's own frames are
